@@ -438,36 +438,11 @@ Definition leaf_update (m : Z) (pt : list Z) (z : thr) : thr :=
   | _ => z
   end.
 
-(* position of a stored coordinate (Fiber._coord2pos for an existing coordinate) *)
-Fixpoint pos_of (c : Z) (es : fib) : option Z :=
-  match es with
-  | [] => None
-  | (c', _) :: es' => if c =? c' then Some 0 else option_map (Z.add 1) (pos_of c es')
-  end.
-
-(* optional action of the innermost body: `x_fiber.getPayloadRef(c)` on the fiber the innermost
-   level reads (an existing element, no trace= argument): fiber.py:916-917 calls
-   Metrics.addUse(rank, c, index, type_=None), which sets cls.point and matches no trace
-   (kind -1 here).  Only for a compressed, non-projected innermost level. *)
-Definition ref_event (lv' : list level) (i : nat) (L : level) (c : Z) (e : env) : list mev :=
-  match lv', l_proj L with
-  | [], None =>
-    if l_ufmt L then []
-    else let x := match l_src L with SFib x => x | SAnd x _ => x end in
-         match pos_of c (sub e x) with
-         | Some p => [EUse (Z.of_nat i) c p (-1) 0]
-         | None => []
-         end
-  | _, _ => []
-  end.
-
-Fixpoint run (kr : bool) (tr : tkey -> bool) (zshape : list Z) (nz : nat) (m : Z) (lv : list level)
+Fixpoint run (tr : tkey -> bool) (zshape : list Z) (nz : nat) (m : Z) (lv : list level)
   (i : nat) (pt : list Z) (e : env) (z : thr) : list mev * thr :=
   match lv with
   | [] => ([], leaf_update m pt z)
   | L :: lv' =>
     run_level tr zshape nz i L
-              (fun c e' z' =>
-                 let b := run kr tr zshape nz m lv' (S i) (pt ++ [c]) e' z' in
-                 if kr then (ref_event lv' i L c e ++ fst b, snd b) else b) e z
+              (fun c e' z' => run tr zshape nz m lv' (S i) (pt ++ [c]) e' z') e z
   end.
